@@ -572,6 +572,25 @@ class World(object):
         self.trace.append({"t": "Restart", "c": name, "d": "", "hd": {"k": "none", "i": 0, "p": "", "f": 0}, "tg": [], "note": [], "fault": "", "j": 1,
                            "out": {"sent": [], "shown": [], "seen": [], "leak": 0}})
 
+    def _member_step(self, kind, name):
+        if self.enabled():
+            raise core.MachineryError("membership change while stanzas are in flight")
+        self.ev(kind, who=name)
+        self.trace.append({"t": kind, "c": name, "d": "", "hd": {"k": "none", "i": 0, "p": "", "f": 0}, "tg": [], "note": [], "fault": "", "j": 1,
+                           "out": {"sent": [], "shown": [], "seen": [], "leak": 0}})
+
+    def members(self):
+        return [self.name_of(j) for j in self.server.groups.get(self.gjid, [])]
+
+    def do_join(self, name):
+        """The group's administrator adds `name` (on the server; clients are not told)."""
+        self.server.groups.setdefault(self.gjid, []).append(self.acc(name).jid)
+        self._member_step("Join", name)
+
+    def do_leave(self, name):
+        self.server.groups[self.gjid].remove(self.acc(name).jid)
+        self._member_step("Leave", name)
+
     def do_end(self):
         self.trace.append({"t": "End", "c": "", "d": "", "hd": {"k": "none", "i": 0, "p": "", "f": 0}, "tg": [], "note": [], "fault": "", "j": 1,
                            "out": {"sent": [], "shown": [], "seen": [], "leak": 0}})
